@@ -1972,10 +1972,18 @@ class SchemaValidator:
     def _resolve_type_from_variable_path(self, var_type_details, path):
         if var_type_details.item_type == "OBJECT":
             # resolve the type on the object definition
-            return self._resolve_type_from_object_path(
+            type_details = self._resolve_type_from_object_path(
                 object_type_ref=var_type_details.object_type_ref,
                 attribute_path=path,
             )
+            if type_details is not None and var_type_details.is_list and path:
+                # the path is followed from every object in the list
+                if type_details.is_list:
+                    raise Exception("nested list types are not supported")
+
+                type_details.is_list = True
+
+            return type_details
         elif utils.is_global_ref(var_type_details.item_type):
             referenced_object = self._resolve_global_ref(var_type_details.item_type)
             if path[0] != "object_promise":
